@@ -898,7 +898,7 @@ def explore(ctx: Ctx):
     k_c = (key_ints(ctx.seed, 1, salt=3)[0], kp)
     ctx.rule = (
         "dist: every non-empty mask (every per-dimension non-empty mask combination for MultiCategorical, every "
-        "mask for Bernoulli) x the full Cartesian grid of logits from {-30,-1,0,2,30} (ties and masked unmasked-argmax "
+        "mask for Bernoulli) x the full Cartesian grid of logits from {-30,-1,0,2,30} plus {-100,0,100} for n<=3 (ties, masked unmasked-argmax, gaps beyond float32 exp range "
         "included) x logits/probs parameterisation x flat/sequence mask form x a key block; ac/q: the real MLP policies "
         "on tabular MDPs, every MDP state as observation x every mask (delivered by the environment's action_mask) x "
         "parameter settings (random initialisations, sharpened heads, heads pinned to chosen logits) x call modes "
@@ -933,6 +933,12 @@ def explore(ctx: Ctx):
             for vals in itertools.product(L4 if thorough else L3, repeat=n):
                 for m in nonempty_masks(n):
                     cases.append(dict(kind="categorical", dims=[n], param="probs", values=list(vals), mask=m, keys=k_dist))
+        if n <= 3:
+            # extreme gaps: the forbidden logit dominates every allowed one by more than float32 exp() can represent
+            # (exp(-88) underflows): a mask applied in probability space instead of logit space breaks down here
+            for vals in itertools.product([-100.0, 0.0, 100.0], repeat=n):
+                for m in nonempty_masks(n):
+                    cases.append(dict(kind="categorical", dims=[n], param="logits", values=list(vals), mask=m, keys=k_dist))
     md = [((2, 3), L5 if thorough else L3), ((1, 2, 2), L3)] + ([((3, 2, 2), [-30.0, 0.0])] if thorough else [])
     for dims, grid in md:
         for vals in itertools.product(grid, repeat=sum(dims)):
